@@ -8,7 +8,7 @@ open HappyModel.C01
 set_option linter.unusedVariables false
 set_option linter.unusedSimpArgs false
 
-variable {σ : Type}
+variable {σ : Type} [Probe σ]
 
 /-- ghost view of one call of run()/resume()/step(n): the deliveries it makes, in order, each with
     the engine state right after it (what `_check_breakpoints` looks at).  Same recursion as
